@@ -81,15 +81,14 @@ def oracle(suite, args, out):
         return "implementation did not return: " + out[:200]
     if suite == "fill_px":
         o = ints(out)
-        if len(o) >= 7 and o[2] > 0 and o[6] == 0:
-            return "a fill changed %d pixels outside the shape (first (%d,%d), alpha %d): bytes outside the footprint" % (o[2], o[3], o[4], o[5])
+        # (a painted pixel inside the bounding box but outside the shape is C02's / C03's subject, not a footprint violation)
         if len(o) >= 11 and o[8] > 0:
             return "a fill changed %d pixels outside the bounding box of the shape (first (%d,%d)): bytes outside the footprint" % (o[8], o[9], o[10])
         return None
     if suite == "hair_px":
         o = ints(out)
-        if len(o) >= 7 and o[1] > 0:
-            return "a thin stroke changed %d pixels far from the path (first (%d,%d)): bytes outside the footprint" % (o[1], o[3], o[4])
+        if len(o) >= 10 and o[9] > 0:
+            return "a thin stroke changed %d pixels outside the bounding box of the path grown by the stroke outset and one pixel: bytes outside the footprint" % o[9]
         return None
     c = decode(args)
     if out.strip() == "-1":
